@@ -22,6 +22,7 @@ Record trace := Trace {
   t_workers : list (list rid * nat * nat);   (* oldest first: tasks taken, state when the generator stops, state after settle *)
   t_events : list (nat * nat);               (* oldest first *)
   t_left : nat * nat;                        (* items left in the task / result queue *)
+  t_lock : bool;                             (* task queue's read lock left held by a killed idle worker *)
   t_term : bool;
   t_clock : nat;
   t_outcome : outcome
@@ -41,7 +42,7 @@ Definition model_trace (c : case) : trace :=
         (rev (map (fun ww => (w_served (fst ww), stat_code (w_stat (fst ww)), stat_code (w_stat (snd ww))))
                   (combine (workers s1) (workers s2))))
         (rev (map event_code (events (sh s2))))
-        (length (tasks (sh s1)), length (results (sh s1)))
+        (length (tasks (sh s1)), length (results (sh s1))) (rlock (sh s1))
         (term s1) (clock s1) o.
 
 Definition pair_eqb (a b : nat * nat) : bool := Nat.eqb (fst a) (fst b) && Nat.eqb (snd a) (snd b).
@@ -50,7 +51,7 @@ Definition wrow_eqb (a b : list rid * nat * nat) : bool :=
 
 Definition trace_eqb (a b : trace) : bool :=
   list_eqb Nat.eqb (t_polls a) (t_polls b) && list_eqb wrow_eqb (t_workers a) (t_workers b)
-  && list_eqb pair_eqb (t_events a) (t_events b) && pair_eqb (t_left a) (t_left b)
+  && list_eqb pair_eqb (t_events a) (t_events b) && pair_eqb (t_left a) (t_left b) && Bool.eqb (t_lock a) (t_lock b)
   && Bool.eqb (t_term a) (t_term b) && Nat.eqb (t_clock a) (t_clock b) && outcome_eqb (t_outcome a) (t_outcome b).
 
 Definition check_case (c : case) : bool := trace_eqb (model_trace c) (c_impl c).
